@@ -92,7 +92,7 @@ func HarnessC08Compile() {
 	}
 	if vfParamInt("mapenv") == 2 {
 		// a struct environment that embeds structs (by value and through a pointer field)
-		sample = vfC16Env(11)
+		sample = vfC16Env(8)
 		ops = []Option{Env(sample), Patch(visitor)}
 	}
 	if vfNative() {
